@@ -11,7 +11,8 @@ Import ListNotations.
 From DD Require Import Base.PyStr Base.Value Path.PathModel Diff.Tree Diff.DiffModel Diff.DiffShow
   Diff.DiffFaithful Delta.DeltaModel Delta.DeltaGuard Delta.DeltaRun Delta.DeltaGood Delta.DeltaChain Delta.DeltaVerify Delta.DeltaVerifyDiff Delta.DeltaVerifyIndep Delta.DeltaVerifyEx
   Delta.DeltaReverse Delta.DeltaReverseDiff Delta.DeltaReverseInplace Delta.DeltaReverseDiffInplace Delta.DeltaReverseTuple Delta.DeltaReverseSeq Delta.DeltaReverseC01
-  Delta.DeltaReverseKinds Delta.DeltaReverseSym Delta.DeltaReverseZip.
+  Delta.DeltaReverseKinds Delta.DeltaReverseSym Delta.DeltaReverseZip
+  Delta.DeltaReverseSymD Delta.DeltaReverseDefault Delta.DeltaVerifyPerm.
 
 (* ================================================================== *)
 (* 1. a non-bidirectional delta refuses subtraction                    *)
@@ -577,3 +578,85 @@ Proof.
   repeat split; vm_compute; discriminate.
 Qed.
 Print Assumptions C08_sub_inverts_positional_data_guards_instance.
+
+(* ================================================================== *)
+(* 9. default mode (difflib alignments) and the order of a pass        *)
+(* ================================================================== *)
+(* the symmetry of the diff holds in BOTH modes before mutual_add_removes, with
+   the mirrored opcode oracle; the same opcode paths are recorded *)
+Theorem C08_diff_symmetric :
+  forall hatom udiff ops c t1 t2 p, sg c t1 t2 ->
+    keq (fst (diff hatom udiff (mirror_ops ops) DeltaReverseSym.nos DeltaReverseSym.nos c t2 t1 p p))
+        (map mirror_entry (fst (diff hatom udiff ops DeltaReverseSym.nos DeltaReverseSym.nos c t1 t2 p p))) /\
+    snd (diff hatom udiff (mirror_ops ops) DeltaReverseSym.nos DeltaReverseSym.nos c t2 t1 p p) =
+    snd (diff hatom udiff ops DeltaReverseSym.nos DeltaReverseSym.nos c t1 t2 p p).
+Proof. intros hatom udiff ops c t1. exact (diff_sym2 hatom udiff ops c t1). Qed.
+Print Assumptions C08_diff_symmetric.
+
+(* t2 - delta = t1 up to dict / set order, ALL categories, ANY mode (recorded
+   opcodes and moved items included), when mutual_add_removes changes nothing:
+   no list index is both removed and added in the tree of DeepDiff(t1,t2)
+   ([no_clash]).  No keys_nonneg guard. *)
+Theorem C08_sub_inverts_default_partial :
+  forall hatom udiff ops c conv always,
+    thr_num c <= thr_den c ->
+    (forall a b, hatom a = hatom b -> a = b) ->
+    (forall ty0 v v', conv ty0 v = Some v' -> type_of v' = ty0) ->
+  forall ro ao, ro_ok ro -> ao_ok ao ->
+    (forall p xs ys, forallb is_atom xs = true -> forallb is_atom ys = true -> valid_ops xs ys (ops p xs ys)) ->
+  forall t1 t2,
+    guards c conv true always t2 t1 -> korder t1 t2 ->
+    no_clash (fst (diff hatom udiff ops DeltaReverseSym.nos DeltaReverseSym.nos c t1 t2 [] [])) ->
+    let r := run_diff hatom udiff ops DeltaReverseSym.nos DeltaReverseSym.nos c t1 t2 in
+    let d := to_delta conv true always ops t1 t2 (fst r) (snd r) in
+    exists t1', sub conv ro ao d t2 = Some (t1', 0) /\ veqb t1' t1 = true.
+Proof. exact default_sub_inverts. Qed.
+Print Assumptions C08_sub_inverts_default_partial.
+
+Theorem C08_sub_inverts_default_partial_instance :
+  zip ex4_cfg = false /\ guardsb ex4_cfg true false ex4_t2 ex4_t1 = true /\ korder ex4_t1 ex4_t2 /\
+  no_clash (fst (diff hatom_simple (fun _ _ => []) ex4_ops DeltaReverseSym.nos DeltaReverseSym.nos ex4_cfg ex4_t1 ex4_t2 [] [])) /\
+  snd ex4_r = [[]] /\ d_ops ex4_d <> [] /\ d_val ex4_d <> [].
+Proof.
+  split; [reflexivity|]. split; [vm_compute; reflexivity|]. split; [cbn; repeat split|]. split.
+  - intros a r Ha Hr Ka Kr. vm_compute in Ha, Hr.
+    destruct Hr as [<-|[<-|[]]]; discriminate Kr.
+  - split; [reflexivity|]. split; vm_compute; discriminate.
+Qed.
+Print Assumptions C08_sub_inverts_default_partial_instance.
+
+(* the order of the entries of a values_changed / type_changes pass: irrelevant
+   for a clean (error-free) bidirectional pass that coerces no tuple and whose
+   paths diverge pairwise (same root, same post list, same error count) ... *)
+Theorem C08_values_changed_perm_clean :
+  forall l l' s,
+    Permutation.Permutation l l' -> pairwise_div (map vc_path l) = true ->
+    Forall (fun c => exists o, vc_old c = Some o) l ->
+    (forall c, In c l -> ntp (root s) (vc_path c)) ->
+    errs (do_values_changed true l s) = errs s ->
+    do_values_changed true l' s = do_values_changed true l s.
+Proof. exact values_changed_perm_clean. Qed.
+Print Assumptions C08_values_changed_perm_clean.
+
+Theorem C08_type_changes_perm_clean :
+  forall conv l l' s,
+    Permutation.Permutation l l' -> pairwise_div (map tc_path l) = true ->
+    Forall (fun c => (exists o, tc_old c = Some o) /\ exists n, tc_new c = Some n) l ->
+    (forall c, In c l -> ntp (root s) (tc_path c)) ->
+    errs (do_type_changes conv true l s) = errs s ->
+    do_type_changes conv true l' s = do_type_changes conv true l s.
+Proof. exact type_changes_perm_clean. Qed.
+Print Assumptions C08_type_changes_perm_clean.
+
+(* ... and false without those guards (finding F4 seen through the order of a
+   pass): on the tuple (1, [2]) writing root[0] first coerces the root and lets
+   root[1][0] be written; in the other order that write fails *)
+Theorem C08_values_changed_perm_refuted :
+  Permutation.Permutation [pr_c1; pr_c2] [pr_c2; pr_c1] /\
+  pairwise_div (map vc_path [pr_c1; pr_c2]) = true /\
+  errs (do_values_changed true [pr_c1; pr_c2] (mkSt pr_root [] 0)) = 0 /\
+  errs (do_values_changed true [pr_c2; pr_c1] (mkSt pr_root [] 0)) = 1 /\
+  root (do_values_changed true [pr_c1; pr_c2] (mkSt pr_root [] 0)) <>
+  root (do_values_changed true [pr_c2; pr_c1] (mkSt pr_root [] 0)).
+Proof. exact perm_refuted. Qed.
+Print Assumptions C08_values_changed_perm_refuted.
